@@ -489,6 +489,9 @@ func makeGenbankOriginParser(length int) genbankSubparser {
 			}
 			pars.Line(state, result)
 
+			if length < 0 || toOriginLength(length) < length {
+				return pars.NewError("sequence length out of range", state.Position())
+			}
 			if err := state.Request(toOriginLength(length)); err != nil {
 				return pars.NewError("not enough bytes in state", state.Position())
 			}
